@@ -6,20 +6,22 @@ EXTENDS Systems, Json
 A == Single("[A]", One)  B == Single("[B]", One)
 U(base, scale, ref) == [base |-> base, scale |-> scale, ref |-> ref]
 S(n) == Single(n, One)
-Reg == [units |-> [x \in {"a", "b", "c", "d", "e", "k"} |->
+Reg == [units |-> [x \in {"a", "b", "c", "d", "e", "k", "sq"} |->
           CASE x = "a" -> U(TRUE, One, A) [] x = "b" -> U(TRUE, One, B)
             [] x = "c" -> U(FALSE, R(2), Mul(S("a"), Single("b", R(2))))
             [] x = "d" -> U(FALSE, R(3), S("a"))
             [] x = "e" -> U(FALSE, R(5), Single("b", R(-1)))
-            [] x = "k" -> U(FALSE, R(7), Mul(S("c"), Single("d", R(-1))))],
+            [] x = "k" -> U(FALSE, R(7), Mul(S("c"), Single("d", R(-1))))
+            [] x = "sq" -> U(FALSE, R(4), Single("a", R(2)))],          \* a root unit squared
         ddims |-> <<>>]
 Rule(n, o) == [new |-> n, old |-> o]
-Sys == [s \in {"S1", "S2", "S3", "S4", "S5", "none"} |->
+Sys == [s \in {"S1", "S2", "S3", "S4", "S5", "S6", "none"} |->
    CASE s = "S1" -> <<Rule("d", "")>>
      [] s = "S2" -> <<Rule("c", "a")>>
      [] s = "S3" -> <<Rule("c", "b")>>
      [] s = "S4" -> <<Rule("d", ""), Rule("e", "")>>
      [] s = "S5" -> <<Rule("c", "a"), Rule("e", "")>>
+     [] s = "S6" -> <<Rule("sq", "")>>                                   \* a |-> sq ** (1/2)
      [] s = "none" -> <<>>]
 Probes == {S("a"), S("b"), S("c"), S("d"), S("e"), S("k"), Mul(S("a"), S("b")), Single("c", R(2)), Mul(S("d"), Single("e", R(-1))),
            Single("b", R(-2)), Mul(S("k"), S("e")), Single("a", <<1, 2>>), Empty}
@@ -44,7 +46,7 @@ OnlyBaseUnits == stage = 1 => \A n \in DOMAIN Dest : n \in NewUnits \/ (Reg.unit
                                                       \/ \E i \in 1..Len(Sys[sys]) : n \in DOMAIN RuleSubst(Reg, Sys[sys][i])[2]
 DimPreserved == stage = 1 => DimDecl(Reg, Dest) = DimDecl(Reg, p)
 PhysPreserved == stage = 1 /\ obs.exact => RMul(obs.f, FactorDecl(Reg, Dest)) = FactorDecl(Reg, p)
-Idempotent == stage = 1 /\ Sys[sys] # <<>> /\ sys \notin {"S3"} => BaseDest(Reg, Sys[sys], Dest) = Dest
+Idempotent == stage = 1 /\ Sys[sys] # <<>> /\ sys \notin {"S3", "S6"} => BaseDest(Reg, Sys[sys], Dest) = Dest
 \* the inverted rule really expresses the old root unit: substituting back gives the old unit's dimensionality
 InversionSound == \A s \in DOMAIN Sys : \A i \in 1..Len(Sys[s]) :
     LET sb == RuleSubst(Reg, Sys[s][i]) IN DimDecl(Reg, sb[2]) = DimDecl(Reg, S(sb[1])) /\ RootUnitsDecl(Reg, sb[2]) = S(sb[1])
